@@ -1609,7 +1609,8 @@ def judge_consume(j, s, r, predicted=None, source="grid"):
     end0 = r["ends"][0]
     j.classes.add(("consume", fmt, base["src"], trailing, base["end"], tuple(s.get("reads") or [])[:2], first.get("class"), r["outcome"]))
     # the reference must agree that the first part is a complete valid stream of exactly that length
-    if not (r["ref"]["ok"] and r["ref"]["total_in"] == end0):
+    # (a raw LZMA2 stream written against a preset dictionary cannot be shown to liblzma's raw decoder here)
+    if first.get("opt", {}).get("pdict") is None and not (r["ref"]["ok"] and r["ref"]["total_in"] == end0):
         raise ToolError(f"liblzma does not see a valid {fmt} stream of {end0} bytes at the start of {s['id']}: {r['ref']}")
     if not (r["outcome"] == "eof" and r["matched"] >= 1 and r["out_len"] == r["content_lens"][0]):
         j.violation("C16", f"{fmt} reader on a valid stream followed by {trailing} bytes: {r['err'] or ('decoded %d of %d bytes' % (r['out_len'], r['content_lens'][0]))}",
@@ -1661,8 +1662,23 @@ def family_consume(ctx, j, quick, rnd, pool):
                             p["src"] = "forge"
                             p["hc"], p["hu"] = rnd.random() < 0.7, rnd.random() < 0.7
                 shapes.append((fmt, p))
+    directed = {}
+    # directed shapes (third mutation round): (a) raw LZMA2 written and read with a preset dictionary shorter than,
+    # as long as and longer than the dictionary: the first pass of read() then starts with a full dictionary buffer;
+    # (b) .lzma with a declared size, a stream several times the dictionary and read sizes that straddle the wrap
+    # point of the dictionary buffer inside one read() call
+    for dict_size, pl in ((4096, 4095), (4096, 4096), (4096, 6000), (8192, 8192), (65536, 70000)):
+        for n in ((300, 5000) if quick else (1, 300, 5000, 70000)):
+            p = {"k": "lzma2", "src": "ours", "opt": {"preset": 1, "dict": dict_size, "pdict": pl}, "n": n, "class": "text", "seed": rnd.getrandbits(32)}
+            directed[len(shapes)] = rnd.choice([[4096], [1], [100], [65536], [7, 4096, 3]])
+            shapes.append(("lzma2", p))
+    for dict_size, n in ((4096, 5000), (4096, 20000), (8192, 24576)) + (() if quick else ((65536, 200000),)):
+        for reads in ([5000], [100], [65536], [4097, 1]):
+            p = {"k": "lzma", "src": "ours", "opt": {"preset": 1, "dict": dict_size, "expected": n}, "n": n, "class": rnd.choice(["text", "lowent"]), "seed": rnd.getrandbits(32)}
+            directed[len(shapes)] = reads
+            shapes.append(("lzma", p))
     for i, (fmt, p) in enumerate(shapes):
-        for trailing in ("none", "zeros", "random", "stream"):
+        for trailing in (("none", "zeros", "random", "stream") if i not in directed else ("none", "random")):
             parts = [p]
             if trailing == "zeros":
                 parts.append({"k": "zeros", "n": rnd.choice([1, 3, 4, 16, 100])})
@@ -1678,7 +1694,7 @@ def family_consume(ctx, j, quick, rnd, pool):
                 parts.append(q)
             scns.append({"id": f"cons-{i}-{trailing}", "fam": "read", "fmt": fmt, "multi": False, "parts": parts, "seed": rnd.getrandbits(32),
                          "src_chunks": rnd.choice(SRC_CHUNKS),
-                         "reads": rnd.choice([[4096], [1], [7, 4096, 3], [65536], [2], [1000, 1]]), "trailing": trailing})
+                         "reads": directed.get(i) or rnd.choice([[4096], [1], [7, 4096, 3], [65536], [2], [1000, 1]]), "trailing": trailing})
     res = run_scenarios(scns)
     log(f"[impl] consume: {len(scns)} valid streams (x trailing kinds x read sizes) read to end of stream in {time.time()-t0:.1f}s")
     for s, r1 in zip(scns, res):
